@@ -452,7 +452,7 @@ QD = "tlexport.quic.quic_decryptor.QuicDecryptor"
 
 
 @harness(["C15", "C02"], "keys.quic_initial_installed", functions=[QS + ".handle_packet", QS + ".set_initial_decryptor"],
-         cases=[("first",), ("later_chacha_offered",)])
+         cases=[("first",), ("later_chacha_offered",), ("after_unknown_version",)])
 def h_quic_initial_installed(c, when):
     """the Initial decryptor holds the RFC 9001 5.2 keys of the connection's FIRST destination connection ID, in the
     order (server key, server iv, client key, client iv) with AES-128-GCM, and is never replaced afterwards - whatever
@@ -461,8 +461,12 @@ def h_quic_initial_installed(c, when):
         return
     dcid = c.bytes("dcid", min_len=0, max_len=20)
     derived = []
+    v1 = c.enum("tlexport.quic.quic_decode.QuicVersion", "V1")
 
     def s_initial(ctx, cid, ver, chacha):
+        if ver is not v1:
+            derived.append((cid, ver, chacha, None))
+            return None                      # contract of dev_initial_keys: no salt for an unknown version (keys.quic_initial)
         ks = {k: ctx.bytes_fresh(k, 12, 32) for k in ("server_initial_key", "server_initial_iv", "client_initial_key", "client_initial_iv",
                                                       "server_initial_hp", "client_initial_hp")}
         derived.append((cid, ver, chacha, ks))
@@ -470,19 +474,31 @@ def h_quic_initial_installed(c, when):
     c.summary_override(QK + ".dev_initial_keys", s_initial)
     made = []
     c.summary_override(QD + ".__init__", lambda ctx, cls, keys, cipher, early=False: made.append((keys, cipher, early)) or ctx.make_obj(cls, keys=keys))
-    v1 = c.enum("tlexport.quic.quic_decode.QuicVersion", "V1")
-    tls = c.record("QuicTlsSession", ciphersuite=const(b"\x13\x03") if when != "first" else None)
+    tls = c.record("QuicTlsSession", ciphersuite=const(b"\x13\x03") if when == "later_chacha_offered" else None)
     old = c.opaque("initial_decryptor_of_first_dcid")
-    s = c.obj(QS, quic_version=v1, decryptors={} if when == "first" else {"Initial": old}, keys={}, tls_session=tls, init_keys_done=False,
-              can_decrypt=True, server_cids=c.new_set_of([]), client_cids=c.new_set_of([]), client_ip=c.bytes("cip", length=4), client_port=50000,
-              packet_buffer_quic=[])
+    from contracts.quic_session_c import full_qsession
+    unknown = c.enum("tlexport.quic.quic_decode.QuicVersion", "UNKNOWN")
+    s = full_qsession(c, quic_version=(unknown if when == "after_unknown_version" else v1), decryptors={"Initial": old} if when == "later_chacha_offered" else {}, keys={},
+                      tls_session=tls, can_decrypt=True, server_cids=c.new_set_of([]), client_cids=c.new_set_of([]), client_ip=c.bytes("cip", length=4), client_port=50000,
+                      packet_buffer_quic=[])
     pkt = c.obj("tlexport.packet.Packet", tls_data=const(b""), ip_src=c.bytes("src", length=4), sport=c.int("sport", 0, 65535))
+    if when == "after_unknown_version":
+        # HISTORY: the first datagram of this address pair carries a version TLExport has no Initial salt for (greased / draft version,
+        # usually answered by Version Negotiation); the client then starts over with QUIC v1 and a NEW destination connection ID
+        other = c.bytes("dcid_of_the_abandoned_attempt", min_len=0, max_len=20)
+        out0 = c.method(s, "handle_packet", pkt, other, unknown)
+        c.ensure("no_raise", out0.exc is None, kind="raises")
+        if out0.exc is not None:
+            return
+        c.ensure("unknown_version.nothing_installed", "Initial" not in c.get(s, "decryptors"))
+        del derived[:]
+        c.set(s, "quic_version", v1)         # (learned from the first v1 datagram; handle_packet's own rule is checked in quic.handle_packet)
     out = c.method(s, "handle_packet", pkt, dcid, v1)
     c.ensure("no_raise", out.exc is None, kind="raises")
     if out.exc is not None:
         return
     decs = c.get(s, "decryptors")
-    if when == "first":
+    if when in ("first", "after_unknown_version"):
         c.ensure("derived_once_from_this_dcid_with_aes128", len(derived) == 1 and derived[0][0] is dcid and derived[0][2] is False)
         c.ensure("installed", len(made) == 1 and "Initial" in decs)
         if len(made) == 1 and len(derived) == 1:
